@@ -282,6 +282,27 @@ def check(ctx):
     # ---- R2b: sender inventory -----------------------------------------------
     missing = sorted(set(oracle) - found_senders)
     extra = sorted(found_senders - set(oracle))
+    # a sender that moved (helper inlined into its caller, method renamed): a function of the same module without a layout entry whose
+    # packets are exactly those of a layout entry that lost its function takes that entry over
+    from ..report import Ctx as _Ctx
+    for e_ in list(extra):
+        pth, qual = e_.split(':')
+        f_ = m.func(pth, qual)
+        summ_, _ = summarise_scoped(m, f_)
+        for mk in list(missing):
+            if mk.split(':')[0] != pth:
+                continue
+            probe = _Ctx(ctx.prop, m)
+            try:
+                sender_layout(probe, f_, summ_, oracle[mk])
+            except Exception:
+                continue
+            if probe.instances and not probe.violations():
+                sender_layout(ctx, f_, summ_, oracle[mk])
+                ctx.note('%s sends the packets of the layout entry %s (sender moved)' % (e_, mk))
+                extra.remove(e_)
+                missing.remove(mk)
+                break
     ctx.need(not extra, 'senders without a firmware layout entry (extend oracles/firmware_layout.py): %s' % extra)
     ctx.inst('R2b', MODULES[0], 'inventory', not missing, 'oracle entries without a sender in the code: %s' % missing)
 
